@@ -36,8 +36,11 @@ SigOf(obs, p) ==
   LET hits == {k \in 1..Len(obs.sigs) : obs.sigs[k].p = p}
   IN IF hits = {} THEN NoFields ELSE obs.sigs[CHOOSE k \in hits : TRUE].cols
 
+(* Open and closed records are printed alike: the comparison is between   *)
+(* what can be printed.                                                    *)
+PrintedCols(cols) == [f \in DOMAIN cols |-> Printed(cols[f])]
 SigDiff(c, inf) ==
-  {p \in DOMAIN inf.sig : SigOf(c.obs, p) # inf.sig[p]}
+  {p \in DOMAIN inf.sig : PrintedCols(SigOf(c.obs, p)) # PrintedCols(inf.sig[p])}
 
 ValueFaults(c, inf) ==
   UNION {
